@@ -15,17 +15,16 @@ SampleSet == Samples(-1, 12)
 OpFailing(ev, op, R) ==
     LET g == ev.g
         S == g.s
-        A2 == Scale(g.a, 2)               \* doubled user coordinates
-        B2 == Scale(g.b, 2)
-        R2 == Scale(R, 2)                 \* doubled scaled coordinates
+        A2 == FineOfUser(g.a, S)
+        B2 == FineOfUser(g.b, S)
+        R2 == FineOfGrid(R)
         AB == A2 \o B2
-        bad == {q \in SampleSet :
-                  Far(AB, q, S) /\
-                  (InRegion(R2, ScalePt(q, S)) # OpHolds(op, InRegion(A2, q), InRegion(B2, q)))}
-        over == {q \in SampleSet :
-                  Far(AB, q, S) /\
-                  (Cardinality(Covering(R2, ScalePt(q, S))) > 1
-                   \/ \E i \in DOMAIN R2 : Winding(R2[i], ScalePt(q, S)) \notin {-1, 0, 1})}
+        bad == {q \in FineSamples(-1, 12, S) :
+                  FarU(AB, q) /\ (InRegion(R2, q) # OpHolds(op, InRegion(A2, q), InRegion(B2, q)))}
+        over == {q \in FineSamples(-1, 12, S) :
+                  FarU(AB, q) /\
+                  (Cardinality(Covering(R2, q)) > 1
+                   \/ \E i \in DOMAIN R2 : Winding(R2[i], q) \notin {-1, 0, 1})}
     IN  (IF bad = {} THEN {} ELSE {<<op, "region", CHOOSE q \in bad : TRUE>>})
         \cup (IF over = {} THEN {} ELSE {<<op, "overlapping_output", CHOOSE q \in over : TRUE>>})
 
